@@ -207,6 +207,13 @@ def c15_mutation_case(rng, res, batch, tag):
             res.violations.append(("check_cycles() != acyclic after edits", case))
         if obs.startswith("ok") != ac:
             res.violations.append(("topological_order raises iff cyclic, after edits", case))
+        if obs.startswith("ok") and ac:
+            # ... and what it yields is still every job exactly once, each after its requirements
+            order = [int(x) for x in obs[3:].replace("-", "").split(",") if x.strip()]
+            if sorted(order) != list(range(1, n + 1)):
+                res.violations.append(("after edits topological_order does not yield every job exactly once: %s" % order, case))
+            elif any(order.index(r) > order.index(x) for x, r in E):
+                res.violations.append(("after edits topological_order is not a linear extension: %s" % order, case))
         res.nontrivial.add(("mut", n, tuple(map(tuple, hist))))
 
 
